@@ -18,7 +18,7 @@ write (C03 `patched_field_designates`, C17) this is the frame argument for reloc
 "after relocate B every entry's field designates its target" (the fold over the entry list with these disjointness facts, incl.
 the address-table section); that composition is evaluated by the monitor on every explored program x base.
 -/
-import AsmjitVerif.Lemmas.RelLoop
+import AsmjitVerif.Lemmas.RelSlots
 import AsmjitVerif.Props.C04
 import AsmjitVerif.Props.C03E
 namespace AsmjitVerif.CodeHolder
@@ -183,6 +183,41 @@ theorem reloc_rel_correct (arch : Arch) (base0 : BitVec 64) (ops : List Op) (hop
     rw [← e]
     congr 1
     ac_rfl
+
+/-- **the address-table form, end to end.** For every program of the menu followed by `flatten; resolve` in 64-bit mode and every
+base `B`: if `relocate_to_base(B)` returns kOk then every X64AddressEntry whose target no rel32 reaches has become
+`FF /2` / `FF /4 [rip + rel32]`, that rel32 reaches slot `k` of the address table (`addr_table_slot_reached` turns the decoded value
+into the run-time address `B + table offset + 8k`), and slot `k` lies inside the table's final buffer and holds the target - to the
+end of the fold: slots are assigned once, never collide, later iterations write other slots or the same value
+(`Lemmas/RelSlots.lean`: `SlotInv`, `relocLoop_slots`).
+Hypotheses on the state before the call, not yet discharged over programs: the `.addrtab` section id is a valid section
+(`hin`) and no table entry has a slot yet (`hnone`; `add_address_to_address_table` creates entries without one). -/
+theorem reloc_table_correct (arch : Arch) (base0 : BitVec 64) (ops : List Op) (hops : ∀ op ∈ ops, op.early = true)
+    (B : BitVec 64) (s' : State) (n : Nat) (ats : Nat)
+    (h8 : (run (State.init arch base0) (ops ++ [.flatten, .resolve])).arch.regSize = 8)
+    (hats : (run (State.init arch base0) (ops ++ [.flatten, .resolve])).addrTabSec = some ats)
+    (hin : ∃ t0, (run (State.init arch base0) (ops ++ [.flatten, .resolve])).secs[ats]? = some t0)
+    (hnone : ∀ e ∈ (run (State.init arch base0) (ops ++ [.flatten, .resolve])).addrTab, e.slot = none)
+    (h : relocate (run (State.init arch base0) (ops ++ [.flatten, .resolve])) B = (s', .ok, n)) :
+    let s := run (State.init arch base0) (ops ++ [.flatten, .resolve])
+    ∀ re ∈ s.relocs, re.type = .x64AddressEntry → relocValue { s with base := B } B s.secs re = none →
+      ∃ (k : Nat) (nb : BitVec 8) (secF tF : Section),
+        (nb = 0x15#8 ∨ nb = 0x25#8) ∧
+        s'.secs[re.srcSec]? = some secF ∧ secF.buf[re.srcOff + re.fmt.valueOffset - 2]? = some 0xFF#8 ∧
+        secF.buf[re.srcOff + re.fmt.valueOffset - 1]? = some nb ∧
+        isInt32 (secOffset s.secs ats + BitVec.ofNat 64 (k * 8) -
+          (secOffset s.secs re.srcSec + BitVec.ofNat 64 re.srcOff + BitVec.ofNat 64 re.regionSize)) = true ∧
+        RDecodes s'.secs re.rgn (secOffset s.secs ats + BitVec.ofNat 64 (k * 8) -
+          (secOffset s.secs re.srcSec + BitVec.ofNat 64 re.srcOff + BitVec.ofNat 64 re.regionSize)) ∧
+        s'.secs[ats]? = some tF ∧ k * 8 + 8 ≤ tF.buf.length ∧ loadLE tF.buf (k * 8) 8 = some re.payload.toNat :=
+  relocate_table_spec _ (relocs_own_their_regions_final arch base0 ops hops) B s' n ats h8 hats hin hnone h
+
+/-- the hypotheses of `reloc_table_correct` are met by a concrete program (x86-64 `call 0x123456789abc` far out of reach),
+and relocation to 0x10000 succeeds -/
+example :
+    let s := run (State.init .x64 noBase) ([.jmpAbs .call .dflt 0x123456789abc#64] ++ [.flatten, .resolve])
+    s.arch.regSize = 8 ∧ s.addrTabSec = some 1 ∧ (s.secs[1]?).isSome ∧ (∀ e ∈ s.addrTab, e.slot = none) ∧
+    (relocate s 0x10000#64).2.1 = .ok := by decide
 
 /-- non-vacuity: three relocation entries (embedded label address, absolute call through the table, 8-byte label delta)
 and one fixup reference; regions [0,8), [8,14), [19,27) of .text -/
